@@ -52,7 +52,42 @@ def sessions(rng, quick):
     for _ in range(60 if quick else 1500):
         n = rng.randrange(4, 8)
         out.append((disk0, [rng.choice(atoms) for _ in range(n)]))
+    # close / reopen histories: a document is edited k times, closed, opened again (its version counter restarts at 1) and
+    # edited m more times, as root or as an included file, optionally followed by an edit of the root
+    per_file = {0: roots, 1: mids + leaf[:1], 2: leaf[1:]}
+    for f in (0, 1, 2):
+        for k in (1, 2, 3):
+            for m in (1, 2):
+                for tail in (False, True):
+                    vs = per_file[f]
+                    ops = Ops([(0, roots[0])] if f != 0 else [])
+                    kinds = [None] * len(ops)
+                    for j in range(1 + k):
+                        ops.append((f, vs[j % len(vs)]))
+                        kinds.append("change" if j else None)
+                    ops.append((f, vs[(k + 1) % len(vs)]))
+                    kinds.append("reopen")
+                    for j in range(m):
+                        ops.append((f, vs[(k + 2 + j) % len(vs)]))
+                        kinds.append("change")
+                    if tail:
+                        ops.append((0, roots[1]))
+                        kinds.append("change" if (f == 0 or True) else None)
+                    ops.kinds = kinds
+                    out.append((disk0, ops))
     return out
+
+
+class Ops(list):
+    """op list with an explicit notification kind per op (None: open if new else change; 'change'; 'reopen' = close + open)"""
+    kinds = None
+
+    def __getitem__(self, i):
+        r = list.__getitem__(self, i)
+        if isinstance(i, slice):
+            r = Ops(r)
+            r.kinds = self.kinds[i] if self.kinds else None
+        return r
 
 
 def reference(disk, ops):
@@ -79,8 +114,18 @@ def srv_line(i, disk, ops, extra_reqs=()):
     d = "%s/tmp/sess%d" % (core.BUILD, i)
     script = []
     opened = set()
-    for f, v in ops:
-        script.append(["change" if f in opened else "open", FILES[f], v.text])
+    kinds = getattr(ops, "kinds", None)
+    for j, (f, v) in enumerate(ops):
+        kind = kinds[j] if kinds else None
+        if kind == "change" and f in opened:
+            script.append(["change", FILES[f], v.text])
+        elif f in opened and (kind == "reopen" or (kind is None and (i * 7 + j * 3 + f) % 3 == 0)):
+            # the editor closes the document and opens it again: versions restart at 1 (the server ignores didClose and the
+            # property counts a document that was opened once as open, so the reference is the same)
+            script.append(["close", FILES[f]])
+            script.append(["open", FILES[f], v.text])
+        else:
+            script.append(["change" if f in opened else "open", FILES[f], v.text])
         opened.add(f)
     script.append(["idle"])
     ws, _, _ = reference(disk, ops)
